@@ -155,7 +155,7 @@ let run_case_with : 'h. ('h -> z -> hcall -> 'h * hresult) -> 'h -> ccase -> str
   end
 
 let run_case (c : ccase) : string =
-  if c.example then run_case_with prim [] c
+  if c.example then run_case_with sprim_store [] c      (* Store.sprim_store: the model of the bundled example store (= Redis.prim on typed calls: StoreFacts) *)
   else begin
     let handle (hs : unit) (_db : z) (call : hcall) : unit * hresult =
       let key = string_of_bytes (hcall_name call) ^ ":" ^ hex_of_bytes (hcall_key call) in
